@@ -2034,6 +2034,9 @@ def replay_case(chk, pool, data, fixed):
             if not union_find_forest(pp_edges) or (union_find_forest(oth) and not union_find_forest(pp_edges + oth)):
                 chk.fail("violation", "label-ignores-2q", f"post-processed CNOTs {pp_edges} close a cycle with the other "
                          f"two-qubit gates {oth} of {case['gates']}", case)
+        if isinstance(real, list):
+            crep = pool.ask({"op": "cutcheck", "fixed": fixed, "ups": True, "gates": case["gates"], "labels": real})
+            check_cut_real(chk, case["gates"], real, True, crep, fixed, case)
         if real != rr.get("labels"):
             chk.fail("broken", "label-model-mismatch", f"{case['gates']}: code {real}, model {rr}", case)
     else:
